@@ -218,6 +218,25 @@ def tlc(ctx, module, cfg_text, name, workers=None, timeout=900, extra=None,
     return res
 
 
+def apalache(ctx, module, inv, name, timeout=600):
+    """Run apalache-mc check --length=0 on spec/<module>.tla with the invariant
+    inv; returns "ok" (invariant holds in every initial state), "violated", or
+    raises Infra."""
+    d = _spec_copy(ctx)
+    outdir = os.path.join(ctx.tmp, "apalache-" + name)
+    cmd = ["timeout", str(timeout), "apalache-mc", "check", "--init=Init",
+           "--next=Next", "--inv=" + inv, "--length=0", "--out-dir=" + outdir,
+           module + ".tla"]
+    p = subprocess.run(cmd, cwd=d, capture_output=True, text=True)
+    out = p.stdout + p.stderr
+    shutil.rmtree(outdir, ignore_errors=True)
+    if "The outcome is: NoError" in out:
+        return "ok"
+    if "invariant 0 violated" in out and "The outcome is: Error" in out:
+        return "violated"
+    raise Infra("apalache failed on %s (%s):\n%s" % (module, inv, out[-2000:]))
+
+
 def tlc_state(out):
     """Extract the last printed state of a TLC error trace (text)."""
     i = out.rfind("State ")
